@@ -253,7 +253,15 @@ def project_onto_tr(x, xk, bounds, trSize):
     # print('Brent method iterations', results.iterations)
     #if not results.converged:
     #    raise RuntimeError('TrustRegionSPG: Root finder failed')
-    return project(xk + t*(x - xk), bounds)
+    p = project(xk + t*(x - xk), bounds)
+    # the root finder's tolerance is on the path parameter t, so p can overshoot the radius
+    # by |x - xk|*xtol, which is not small for distant x: pull it back toward xk (the box is
+    # convex and contains xk, and clipping never moves a point away from xk)
+    d = p - xk
+    dist = np.linalg.norm(d)
+    if dist > trSize:
+        p = project(xk + (trSize/dist)*d, bounds)
+    return p
 
 
 def find_generalized_cauchy_point(x, g, hess_vec_func, bounds, alpha, trSize, settings):
